@@ -222,15 +222,19 @@ USE = ":- use_module(library(clpb)).\n"
 
 def run(ctx):
     rng = ctx.rng
-    n_single = ctx.scale(3600, 100000)
-    n_pairs = ctx.scale(1400, 40000)
+    n_single = ctx.scale(3600, 40000)
+    n_pairs = ctx.scale(1400, 15000)
     n_seq = ctx.scale(600, 6000)
+    # further cases are run on the implementation and pre-screened against the (untrusted) Python mirror of the model;
+    # only those on which the mirror disagrees with the implementation are forwarded to the Coq model, which alone decides
+    x_single = ctx.scale(10000, 100000)
+    x_pairs = ctx.scale(4000, 40000)
     maxv = 5
     # ---------------- cases
     singles, pairs = [], []
     seen = set()
     tries = 0
-    while len(singles) < n_single and tries < n_single * 20:
+    while len(singles) < n_single + x_single and tries < (n_single + x_single) * 20:
         tries += 1
         nv = rng.choice([1, 2, 3, 4, 4, 5, 5, 5, 5])
         budget = rng.choice([1, 2, 3, 4, 5, 6, 7, 8, 8, 9, 9, 10, 10, 11, 11, 12, 12, 12])
@@ -248,7 +252,7 @@ def run(ctx):
         rng.shuffle(tmpl)
         singles.append((f, tmpl))
     tries = 0
-    while len(pairs) < n_pairs and tries < n_pairs * 20:
+    while len(pairs) < n_pairs + x_pairs and tries < (n_pairs + x_pairs) * 20:
         tries += 1
         nv = rng.choice([2, 3, 4, 4, 5, 5, 5])
         g = gen_formula(rng, rng.randint(1, 7), nv)
@@ -295,7 +299,8 @@ def run(ctx):
     bools, meta = [], []   # meta: list of (kind, query, impl text, check expr, spec expr) per case
     failures, tie_breaks = [], []
     dist = {"connectives": {}, "nvars": {}, "size": {}, "sat": 0, "unsat": 0, "taut": 0, "contingent": 0, "models_total": 0,
-            "incremental_first_unsat": 0, "incremental_conj_unsat": 0, "incremental_taut_under": {}}
+            "incremental_first_unsat": 0, "incremental_conj_unsat": 0, "incremental_taut_under": {},
+            "prescreened_only": {"single_agree": 0, "single_forwarded_to_coq": 0, "pair_agree": 0, "pair_forwarded_to_coq": 0}}
     nontrivial = set()
     seq_checks, seq_meta = [], []
     n_obs = 0
@@ -312,6 +317,15 @@ def run(ctx):
             a_s, a_t, a_n, a_l = rs[4 * j: 4 * j + 4]
             vs = fvars(f)
             ms = py_models(f, vs)
+            extra_case = i + j >= n_single
+            if extra_case:
+                exp_t = "(Some false)" if not ms else "(Some true)" if len(ms) == 2 ** len(vs) else "None"
+                s0, n0, L0 = first_binding(a_s, "S"), first_binding(a_n, "N"), parse_L(a_l, len(tmpl))
+                if (s0 is not None and s0.get("i") == ("1" if ms else "0") and parse_T(a_t) == exp_t and n0 is not None and n0.get("i") == str(len(ms))
+                        and L0 is not None and len(set(L0)) == len(L0) and sorted(L0) == sorted(py_models(f, tmpl))):
+                    dist["prescreened_only"]["single_agree"] += 1
+                    continue
+                dist["prescreened_only"]["single_forwarded_to_coq"] += 1
             dist["models_total"] += len(ms)
             for o in connectives(f): dist["connectives"][o] = dist["connectives"].get(o, 0) + 1
             dist["nvars"][len(vs)] = dist["nvars"].get(len(vs), 0) + 1
@@ -354,7 +368,19 @@ def run(ctx):
             a_s, a_l, a_t, a_n = rs[4 * j: 4 * j + 4]
             vs = fvars(conj)
             ms = py_models(conj, vs)
-            g_sat = bool(py_models(g, fvars(g)))
+            g_ms = py_models(g, vs)
+            g_sat = bool(g_ms)
+            if i + j >= n_pairs:
+                vf = fvars(f)
+                exp_t = "unsat" if not g_sat else "(Some false)" if not ms else "(Some true)" if len(ms) == len(g_ms) else "None"
+                exp_n = "unsat" if not g_sat else str(len(set(tuple(m[vs.index(v)] for v in vf) for m in ms)))
+                s0, L0, tv0, n0 = first_binding(a_s, "S"), parse_L(a_l, len(tmpl)), first_binding(a_t, "T"), first_binding(a_n, "N")
+                t0 = "unsat" if (tv0 is not None and tv0.get("a") == "unsat") else parse_T(a_t)
+                if (s0 is not None and s0.get("i") == ("1" if ms else "0") and t0 == exp_t and n0 is not None and (n0.get("i") or n0.get("a")) == exp_n
+                        and L0 is not None and len(set(L0)) == len(L0) and sorted(L0) == sorted(py_models(conj, tmpl))):
+                    dist["prescreened_only"]["pair_agree"] += 1
+                    continue
+                dist["prescreened_only"]["pair_forwarded_to_coq"] += 1
             if not g_sat: dist["incremental_first_unsat"] += 1
             elif not ms: dist["incremental_conj_unsat"] += 1
             if g_sat and 0 < len(ms) < 2 ** len(vs): nontrivial.add(pg + " , " + pf)
@@ -425,7 +451,9 @@ def run(ctx):
         "rule": ("random formulas of at most 12 nodes over at most 5 variables using 0, 1, ~, *, +, #, =:=, =\\=, =<, >=, <, >, card/2 (integers and "
                  "ranges, also out of range), +/1, */1; for each: sat/1 success, taut/2, sat_count/2 and the set of labeling/1 answers (template in "
                  "random order, sometimes with a variable that does not occur); pairs G,F posted incrementally: sat(G),sat(F) vs the conjunction, "
-                 "taut/2 and sat_count/2 of F under G; every observation compared with the model by vm_compute in Coq. non-trivial = distinct "
+                 "taut/2 and sat_count/2 of F under G; every observation compared with the model by vm_compute in Coq (evaluations counts only these). About "
+                 "three times as many further cases are pre-screened against a Python mirror of the model and forwarded to Coq only when the mirror "
+                 "disagrees with the implementation (distribution.prescreened_only). non-trivial = distinct "
                  "formula (or pair with satisfiable first constraint) with at least 2 variables that is neither a tautology nor unsatisfiable"),
         "samples": samples,
         "distribution": dist,
